@@ -534,8 +534,10 @@ def window_low(prog, rep):
     lows = []
     for st in cfg_of(fn).all_stmts():
         for n in ast.walk(st) if isinstance(st, (ast.Assign, ast.Expr, ast.Return)) else []:
-            if isinstance(n, ast.Call) and isinstance(n.func, ast.Attribute) and n.func.attr == "uniform" and len(n.args) >= 2:
-                lows.append((st, b.term(n.args[0], st)))
+            if isinstance(n, ast.Call) and isinstance(n.func, ast.Attribute) and n.func.attr == "uniform":
+                low = n.args[0] if n.args else next((k.value for k in n.keywords if k.arg == "low"), None)
+                if low is not None:
+                    lows.append((st, b.term(low, st)))
     if not lows:
         raise AnalysisError(f"{q}: no uniform(lo, hi, ...) candidate draw found")
     consts = [(st, t) for st, t in lows if t[0] == "const" and isinstance(t[1], (int, float)) and t[1] >= 0]
